@@ -310,6 +310,13 @@ O(id='unber_stream.b7', props=['C20', 'C04'], kind='bounded', entry='h_unber_str
   stubs=['stubs/vsnprintf.c'], bound='every input of at most 7 octets, every option combination (-p, -1, -m); recursion depth <= 8',
   trusted=['snprintf/vsnprintf stub (stubs/vsnprintf.c)'], min_props=100, timeout=1500, **UB)
 
+# ---------------------------------------------------------------- C06: BIT STRING DER
+BS = dict(harness='harness/h_bitstring_der.c', units=[SK + 'OCTET_STRING.c', SK + 'BIT_STRING.c'], fp_restrict=[(r'::cb$', ['vf_cb'])])
+O(id='BIT_STRING_encode_der.canon', props=['C02', 'C06', 'C07'], kind='bounded', entry='h_BIT_STRING_encode_der', functions=['OCTET_STRING_encode_der', 'der_write_tags'],
+  unwind=14, bound='bit strings of 1..4 octets, 0..7 unused bits, arbitrary garbage in the unused bits', min_props=50, timeout=600, **BS)
+O(id='BIT_STRING_encode_der.malformed', props=['C07'], kind='bounded', entry='h_BIT_STRING_encode_der_malformed', functions=['OCTET_STRING_encode_der'],
+  unwind=14, bound='bit strings of 1..4 octets, every int value of bits_unused', min_props=50, timeout=600, **BS)
+
 UNVERIFIED = {
  'C07': ['asn_encode_to_buffer / asn_encode_to_new_buffer / uper_encode_to_buffer / uper_encode_to_new_buffer with a UPER type encoder: obligations exist (tier experimental) but do not discharge (symbolic-length memcpy of the 32-octet bit scratch space runs out of memory); asn_encode with UPER is covered',
          'every constructed / generated type encoder is assumed to follow the operation-slot convention enumerated by the stub encoder',
